@@ -31,8 +31,8 @@ theorem history_invariant (cfg : Cfg K V) (s : State K V) (ops : List (Op V)) (g
     partition into objects), a delete removes exactly the values of the listed objects (ids in
     any order, repeated or not), a delete-where keeps exactly the values its complement filter
     `keep` holds of, everything else changes nothing.
-    Side conditions (`Op.okFor`): a vacuum is of the branch's own tip; vector operations list
-    each id once (otherwise FALSE of the code: `not_addVectors_readable`). -/
+    Side condition (`Op.okFor`): a vacuum is of the branch's own tip.  (Delete and the vector
+    operations may list an id repeatedly: the code de-duplicates since f09056a37 / 3863440f6.) -/
 theorem refinement (cfg : Cfg K V) (s s' : State K V) (op : Op V) (b t : Nat) (cs : List V)
     (g : Good s) (ha : apply cfg s op = .ok s') (h14 : op.isC14 = true) (hok : op.okFor t)
     (ht : s.tip b = some t) (hc : s.contents t = .ok cs) :
@@ -223,18 +223,16 @@ theorem not_object_meta_correct :
     ∃ o, mkObj thisCfg 1 [1, 2] = some o ∧ isSorted thisCfg [1, 2] = true ∧
       thisCfg.kle o.min (thisCfg.key 1) = false := ⟨_, rfl, rfl, rfl⟩
 
-/-! negation witness for the vector operations with a repeated id -/
+/-! the former negation witness for the vector operations with a repeated id: since fix
+    3863440f6 the model, like the code, de-duplicates -/
 private def vecState : State Nat Nat :=
   { commits := [{ parent := 0, acts := [.add { id := 1, min := 1, max := 1, count := 1 }] }],
     branches := [(0, 1)], files := [(1, [1])], nextObj := 2 }
 
-/-- **not_addVectors_readable**: `AddVectors(main, [1, 1])` is acknowledged and leaves `main`
-    unreadable (`add of a duplicate vector of data object`): `Branch.AddVectors` checks every
-    listed id against the tip snapshot and then emits one `AddVector` per listed id.  Replayed
-    on the real code by the harness (witness:duplicate-vector-id). -/
-theorem not_addVectors_readable :
-    ∃ s', addVectors vecState 0 [1, 1] = .ok s' ∧ s'.tip 0 = some 2 ∧
-      snapAt s'.commits 2 = .error .dupVector := ⟨_, rfl, rfl, rfl⟩
+/-- `AddVectors(main, [1, 1])` is acknowledged and leaves `main` readable with one vector
+    (replayed on the real code by the harness, witness:duplicate-vector-id) -/
+example : ∃ s' snap, addVectors vecState 0 [1, 1] = .ok s' ∧ s'.tip 0 = some 2 ∧
+    snapAt s'.commits 2 = .ok snap ∧ snap.vecs = [1] := ⟨_, _, rfl, rfl, rfl, rfl⟩
 
 /-! the former negation witness (one object, `delete [1, 1]`): since fix f09056a37 the model,
     like the code, de-duplicates, and the branch stays readable -/
